@@ -3,7 +3,8 @@
 package multicast
 
 // Contracts for the asynchronous read/write paths of UDPPeer (properties C01 exactly-once, C14
-// dispatch depth): the same structure as packetConn in the root package.
+// dispatch depth, C12 what a completed datagram operation reports): the same structure as
+// packetConn in the root package.
 
 //@ immutable [C01,C14] UDPPeer.ioc UDPPeer.socket UDPPeer.read UDPPeer.write UDPPeer.stats readReactor.peer writeReactor.peer constructors NewUDPPeer
 
@@ -32,11 +33,23 @@ package multicast
 //@   requires upInv(p) && fn != nil && !upArmedR(p)
 //@   consumes fn unless upArmedR(p)
 //@   ensures [armed] invoked(fn) == 0 ==> p.ioc.poller.pending == old(p.ioc.poller.pending) + 1 && p.slot.Handlers[0] != nil
+//@   ensures [C12 recorded] invoked(fn) == 0 ==> alias(p.read.b, old(p.read.b)) && p.read.fn == old(p.read.fn)
 //@   ensures [depth] p.ioc.Dispatched == old(p.ioc.Dispatched)
 
+//@ func (*UDPPeer).SetAsyncReadBuffer
+//@   prop C12
+//@   requires upInv(p)
+//@   ensures [designated] alias(p.read.b, to)
+
 //@ func (*UDPPeer).asyncReadNow
-//@   prop C01
+//@   prop C01, C12
 //@   requires upInv(p) && fn != nil && !upArmedR(p)
+//@   // one receive, into the buffer given; a completed read reports that datagram's length; an
+//@   // error is never turned into success and would-block is waited for, never reported
+//@   assert call UDPPeer).Read: [C12 buffer] alias(arg1, b)
+//@   remember after call UDPPeer).Read: moved = result2 == nil
+//@   remember after call UDPPeer).Read: got := result0
+//@   assert call fn: [C12 no-swallowed-error] (arg0 == nil ==> moved && arg1 == got) && arg0 != sonicerrors.ErrWouldBlock
 //@   consumes fn unless upArmedR(p)
 //@   ensures [depth] p.ioc.Dispatched == old(p.ioc.Dispatched)
 
@@ -55,6 +68,8 @@ package multicast
 //@   assert call UDPPeer).Read: p.ioc.Dispatched < sonic.MaxCallbackDispatch
 //@   assert any call fn: [C14 counted] p.ioc.Dispatched > old(p.ioc.Dispatched)
 //@   consumes fn unless upArmedR(p)
+//@   // a read that is waiting will be made into this buffer and completes this callback
+//@   ensures [C12 recorded] invoked(fn) == 0 ==> alias(p.read.b, b) && p.read.fn == fn
 //@   ensures [depth] p.ioc.Dispatched == old(p.ioc.Dispatched)
 
 //@ func (*UDPPeer).scheduleWrite
@@ -62,11 +77,17 @@ package multicast
 //@   requires upInv(p) && fn != nil && !upArmedW(p)
 //@   consumes fn unless upArmedW(p)
 //@   ensures [armed] invoked(fn) == 0 ==> p.ioc.poller.pending == old(p.ioc.poller.pending) + 1 && p.slot.Handlers[1] != nil
+//@   ensures [C12 recorded] invoked(fn) == 0 ==> alias(p.write.b, old(p.write.b)) && p.write.addr == old(p.write.addr) && p.write.fn == old(p.write.fn)
 //@   ensures [depth] p.ioc.Dispatched == old(p.ioc.Dispatched)
 
 //@ func (*UDPPeer).asyncWriteNow
-//@   prop C01
+//@   prop C01, C12
 //@   requires upInv(p) && fn != nil && !upArmedW(p)
+//@   // one send, of exactly the caller's bytes to the given destination
+//@   assert call UDPPeer).Write: [C12 datagram] alias(arg1, b) && arg2 == addr
+//@   remember after call UDPPeer).Write: moved = result1 == nil
+//@   remember after call UDPPeer).Write: sent := result0
+//@   assert call fn: [C12 no-swallowed-error] (arg0 == nil ==> moved && arg1 == sent) && arg0 != sonicerrors.ErrWouldBlock
 //@   consumes fn unless upArmedW(p)
 //@   ensures [depth] p.ioc.Dispatched == old(p.ioc.Dispatched)
 
@@ -84,16 +105,25 @@ package multicast
 //@   assert call UDPPeer).Write: p.ioc.Dispatched < sonic.MaxCallbackDispatch
 //@   assert any call fn: [C14 counted] p.ioc.Dispatched > old(p.ioc.Dispatched)
 //@   consumes fn unless upArmedW(p)
+//@   // a write that is waiting will send these bytes to this destination and completes this callback
+//@   ensures [C12 recorded] invoked(fn) == 0 ==> alias(p.write.b, b) && p.write.fn == fn
+//@   ensures [C12 recorded-destination] invoked(fn) == 0 ==> p.write.addr == addr
 //@   ensures [depth] p.ioc.Dispatched == old(p.ioc.Dispatched)
 
 // The handlers the poller dispatches for deferred operations: the recorded callback is completed
 // exactly once, now or (would-block again) after the operation is armed again.
 //@ func (*readReactor).on
-//@   prop C01
+//@   prop C01, C12
 //@   requires r.peer != nil && upInv(r.peer) && r.peer.read == r && r.fn != nil && !upArmedR(r.peer)
+//@   // the reactor itself reports only the poller's error; otherwise the read is attempted into
+//@   // the buffer designated for it at this moment
+//@   assert call fn: [C12 only-poller-errors] err != nil && arg0 == err
+//@   assert call asyncReadNow: [C12 designated-buffer] alias(arg1, r.b) && arg2 == r.fn
 //@   consumes r.fn unless upArmedR(r.peer)
 
 //@ func (*writeReactor).on
-//@   prop C01
+//@   prop C01, C12
 //@   requires r.peer != nil && upInv(r.peer) && r.peer.write == r && r.fn != nil && !upArmedW(r.peer)
+//@   assert call fn: [C12 only-poller-errors] err != nil && arg0 == err
+//@   assert call asyncWriteNow: [C12 resumed-as-started] alias(arg1, r.b) && arg2 == r.addr && arg3 == r.fn
 //@   consumes r.fn unless upArmedW(r.peer)
